@@ -5,12 +5,32 @@ package olareg
 // synchronisation operation (bounded), the schedule is forked by the engine.
 
 import (
+	"context"
+	"time"
+
 	digest "github.com/opencontainers/go-digest"
 
 	"github.com/olareg/olareg/config"
+	"github.com/olareg/olareg/internal/store"
+	"github.com/olareg/olareg/internal/verifenv/vclock"
 	"github.com/olareg/olareg/internal/verifenv/vh"
 	"github.com/olareg/olareg/types"
 )
+
+// vhGateStore counts the repositories handed out (a request that holds one is registered
+// with it from then on).
+type vhGateStore struct {
+	store.Store
+	opened int
+}
+
+func (g *vhGateStore) RepoGet(ctx context.Context, name string) (store.Repo, error) {
+	r, err := g.Store.RepoGet(ctx, name)
+	if err == nil {
+		g.opened++
+	}
+	return r, err
+}
 
 func vhListed(s *Server, subject digest.Digest, d digest.Digest) bool {
 	r := vhDo(s, "GET", "/v2/a/referrers/"+subject.String(), nil, nil, nil)
@@ -50,9 +70,9 @@ func VH_C11_Concurrent() {
 	a1, a2 := vhArtifact(1, subj, true), vhArtifact(2, subj, true)
 	scenario := vh.Param("SCENARIO", -1)
 	if scenario < 0 {
-		scenario = vh.Choice("scenario", 8)
+		scenario = vh.Choice("scenario", 10)
 	}
-	names := []string{"two-referrers-same-subject", "two-pushes-same-tag", "push-vs-delete-tag", "push-referrer-vs-delete-referrer", "push-vs-reads", "upload-vs-manifest-push", "two-first-pushes-to-a-new-repository", "upload-vs-probe-of-the-same-digest"}
+	names := []string{"two-referrers-same-subject", "two-pushes-same-tag", "push-vs-delete-tag", "push-referrer-vs-delete-referrer", "push-vs-reads", "upload-vs-manifest-push", "two-first-pushes-to-a-new-repository", "upload-vs-probe-of-the-same-digest", "two-pushes-while-the-open-repository-expires", "two-pushes-and-the-repository-expires-at-any-moment"}
 	vh.Tag("scenario", names[scenario])
 	switches := vh.Param("SWITCHES", 2)
 	c1, c2 := 0, 0
@@ -156,6 +176,35 @@ func VH_C11_Concurrent() {
 		vh.Preempt(0)
 		vh.Assert(c1 == 201 && (c2 == 200 || c2 == 404), "C11.concurrent-request-refused")
 		vh.Assert(vhGetBlob(s, "a", dx).Status() == 200, "C11.acknowledged-blob-lost")
+	case 8, 9:
+		// two pushes of different tags while the cache of open repositories lets the
+		// repository expire (its age timer fires hours later).  Scenario 8: the hours pass
+		// while the first push holds the repository (it is registered with it: the
+		// eviction has to wait for it).  Scenario 9: at any moment - including the window
+		// of dir.RepoGet between the cache lookup and the registration (known finding K5).
+		// (Both pushes add a tag to the image that is already tagged: nothing they store
+		// is unreferenced, so the hours that pass cannot make any of it collectable.)
+		gate := &vhGateStore{Store: s.store}
+		s.store = gate
+		vh.Preempt(switches)
+		vh.Go(func() { c1 = vhPutManifest(s, "a", "ta", types.MediaTypeOCI1Manifest, img1).Status() })
+		vh.Go(func() {
+			if scenario == 8 && gate.opened == 0 {
+				return
+			}
+			vclock.Advance(3 * time.Hour)
+			for _, t := range vclock.Armed() {
+				if f := t.Func(); f != nil {
+					f()
+				}
+			}
+			vh.Cover("C11.repository-expired-during-push")
+		})
+		vh.Go(func() { c2 = vhPutManifest(s, "a", "tb", types.MediaTypeOCI1Manifest, img1).Status() })
+		vh.Join()
+		vh.Preempt(0)
+		vh.Assert(c1 == 201 && c2 == 201, "C11.concurrent-push-refused")
+		vh.Assert(vhBytesEq(vhGetManifest(s, "a", "ta").Body, img1) && vhBytesEq(vhGetManifest(s, "a", "tb").Body, img1), "C11.acknowledged-tag-lost")
 	}
 	vh.Assert(vhBytesEq(vhGetManifest(s, "a", "base").Body, img1), "C11.unrelated-tag-lost")
 	vh.Cover("C11.concurrent-end")
